@@ -327,8 +327,8 @@ def run_differential(ck, rng, thorough):
         return
     from .c14_programs import make_tracer
     Tracer = make_tracer(fp)
-    nprog = 60 if thorough else 14
-    nvec = 24 if thorough else 10
+    nprog = 60 if thorough else 12
+    nvec = 24 if thorough else 8
     progs = []
     for i in range(nprog):
         g = GENERATORS[i % len(GENERATORS)]
